@@ -156,6 +156,47 @@ def check_case(case, ctx):
                 mech += ":names-with-delimiters"
         ctx.violation("C17/" + mech, f"{A} == {B} returned {results['a==b']}, expected {expected} ({case['kind']})", sub,
                       observed=results["a==b"], expected=expected)
+    # a Dataset never equals something that is not a Dataset (and the comparison does not fail)
+    for other in (None, 0, "text", [list(map(set, r)) for r in A], da.rankings, str(da)):
+        for label, fn in (("a==x", lambda o=other: da == o), ("x==a", lambda o=other: o == da), ("a!=x", lambda o=other: da != o)):
+            stq, got = call(fn)
+            ctx.count("comparisons_with_non_datasets")
+            if stq == "exc":
+                ctx.violation(f"C17/equality-raises-{type(got).__name__}", f"{label} with a {type(other).__name__} raised "
+                              f"{exc_desc(got)}", sub)
+                break
+            if bool(got) != (label == "a!=x"):
+                ctx.violation("C17/dataset-equal-to-a-non-dataset", f"{label} with {other!r} returned {got}", sub,
+                              observed=got, expected=label == "a!=x")
+                break
+    # elements of one type: equal exactly when they hold the same value; equal elements hash alike; an Element equals the
+    # raw int / str it holds (as its docstring says)
+    names = [e for e in ref.universe(A)][:4] + [e for e in ref.universe(B)][:2]
+    for x in names:
+        for y in names:
+            stq, res = call(lambda: (ck.Element(x) == ck.Element(y), hash(ck.Element(x)) == hash(ck.Element(y)),
+                                     ck.Element(x) == y, ck.Element(x) != ck.Element(y)))
+            ctx.count("element_pairs")
+            if stq == "exc":
+                ctx.violation(f"C17/element-equality-raises-{type(res).__name__}", exc_desc(res), {**sub, "x": x, "y": y})
+                break
+            eq, same_hash, eq_raw, ne = res
+            if type(x) is not type(y):
+                # an int and a str: what the statement requires is only that == and != are opposite and agree both ways
+                stq2, eq_rev = call(lambda: ck.Element(y) == ck.Element(x))
+                want = bool(eq)
+                if stq2 == "ok" and bool(eq_rev) == bool(eq) and bool(ne) != bool(eq):
+                    continue
+            else:
+                want = x == y
+            if bool(eq) != want or bool(ne) == want or bool(eq_raw) != want or (want and not same_hash):
+                ctx.violation("C17/element-equality-wrong", f"Element({x!r}) vs Element({y!r}): == {eq}, != {ne}, == raw "
+                              f"value {eq_raw}, same hash {same_hash}; expected equal = {want}", {**sub, "x": x, "y": y},
+                              observed=[eq, ne, eq_raw, same_hash], expected=want)
+                break
+        else:
+            continue
+        break
     # agreement with ranking equality on single-ranking datasets
     if len(A) == 1 and len(B) == 1:
         ra, rb = da.rankings[0], db.rankings[0]
@@ -228,6 +269,8 @@ def reach(counters, tier, info):
     k = 0.5 if tier == "quick" else 20
     out = []
     for name, key, need in [("pairs judged", "pairs", 4000 * k),
+                            ("comparisons of a Dataset with something else", "comparisons_with_non_datasets", 4000 * k),
+                            ("pairs of elements compared and hashed", "element_pairs", 4000 * k),
                             ("equal-by-construction pairs whose textual forms differ", "equal_text_differs", 300 * k),
                             ("near-miss pairs", "near_misses", 900 * k),
                             ("pairs differing only in multiplicity", "near_miss:multiplicity", 100 * k),
